@@ -690,6 +690,13 @@ func flagRelease(in ssa.Instruction, f *types.Var) bool {
 		return true
 	}
 	c := calleeOf(in)
+	// a helper of the module that stores 0 into the flag on every path (a "...Locked" stage that releases the flag it was
+	// entered with) ends the region like the store itself
+	if c != nil && c.Pkg != nil && strings.HasPrefix(c.Pkg.Pkg.Path(), modPath) && len(origin(c).Blocks) > 0 {
+		if _, isCall := in.(*ssa.Call); isCall && mustPerform(origin(c), func(x ssa.Instruction) bool { return isStoreConst(x, f, 0) }, map[*ssa.Function]int{}) {
+			return true
+		}
+	}
 	inner := innerWordFields(f)
 	if c == nil || len(inner) == 0 || !sameField(recvField(in), f) || c.Pkg == nil || !strings.HasPrefix(c.Pkg.Pkg.Path(), modPath) {
 		return false
